@@ -13,6 +13,7 @@
 ##############################################################################
 """Schema loader utility."""
 
+import http.client
 import os.path
 import re
 import sys
@@ -205,7 +206,8 @@ class BaseLoader(ABC):
                 # urllib.request.URLError has a particularly hostile str(), so
                 # we generally don't want to pass it along to the user.
                 self._raise_open_error(url, e.reason)  # pragma: no cover
-            except OSError as e:
+            except (OSError, ValueError, http.client.HTTPException) as e:
+                # ValueError and InvalidURL: the URL itself is malformed
                 self._raise_open_error(url, str(e))
 
             try:
